@@ -9,13 +9,73 @@
 
 use anda_cognitive_nexus::CognitiveNexus;
 use anda_cognitive_nexus::nexus::DEFAULT_SPACE;
-use anda_cognitive_nexus::schema::SchemaLock;
+use anda_cognitive_nexus::schema::{PackageState, SchemaLock, SchemaPackage};
+use anda_kip::{Executor, Request};
 use object_store::memory::InMemory;
 use serde_json::{Map, Value};
 use std::collections::{BTreeMap, BTreeSet};
 use std::sync::Arc;
 use v_nexus::nx1718::*;
 use vcore::{Rng, Run, Stats, json};
+
+// ---------------------------------------------------------------------------------------------
+// schema environments of a history: the bundled profile alone never changes what a projection
+// computes, so a small second package comes in two versions - `reads` is an ordinary predicate
+// in 1.0.0 and a functional (single-valued) one in 2.0.0, where support for a rival value
+// opposes. A read AS OF a coordinate has to project under the version in force there.
+
+const READS_ID: &str = "kip://test/c18";
+
+fn reads_package(version: &str, functional: bool) -> String {
+    format!(
+        r#"{{"format": "KIP-Schema-Package", "manifest": {{"package_id": "{READS_ID}", "version": "{version}"}},
+            "definitions": {{"predicates": {{"reads": {{"kind": "PredicateType",
+            "description": "What somebody is reading. Single-valued from 2.0.0 on.", "functional": {functional}}}}}}}}}"#
+    )
+}
+
+#[derive(Clone, Copy, PartialEq, Debug)]
+enum Env {
+    /// no package in force (core symbols only)
+    Core,
+    /// profile + `reads` as an ordinary predicate
+    Plain,
+    /// profile + `reads` functional
+    Functional,
+}
+
+fn lock_of(env: Env) -> SchemaLock {
+    let mut lock = match env {
+        Env::Core => return SchemaLock::default(),
+        _ => profile_lock(),
+    };
+    lock.packages.insert(READS_ID.to_string(), if env == Env::Plain { "1.0.0" } else { "2.0.0" }.to_string());
+    lock.states.insert(READS_ID.to_string(), PackageState::Active);
+    lock
+}
+
+/// Two rival values of one `reads` slot, each claimed once: under the functional version each
+/// claim opposes the other value, under the plain one they coexist.
+fn reads_statement(rng: &mut Rng, w: &World) -> Option<Cmd> {
+    let subject = w.active_of_type("Person").first().map(|e| e.id.clone())?;
+    let others: Vec<String> = World::active(&w.concepts).iter().filter(|c| c.id != subject).map(|c| c.id.clone()).collect();
+    if others.len() < 2 {
+        return None;
+    }
+    let o1 = rng.pick(&others).clone();
+    let o2 = rng.pick(&others).clone();
+    if o1 == o2 {
+        return None;
+    }
+    let by2 = if rng.bool() { subject.clone() } else { o1.clone() };
+    let text = format!(
+        "MUTATE {{\n  ENSURE PROPOSITION ?g1 (:gs, \"reads\", :go1)\n  ENSURE PROPOSITION ?g2 (:gs, \"reads\", :go2)\n  \
+         CREATE ASSERTION ?ga1 {{ SET FIELDS {{proposition: ?g1, asserted_by: {}, stance: \"support\", mode: \"stated\", confidence: 0.{}}} }}\n  \
+         CREATE ASSERTION ?ga2 {{ SET FIELDS {{proposition: ?g2, asserted_by: {}, stance: \"support\", mode: \"observed\", confidence: 0.{}}} }}\n}}",
+        jstr(&subject), rng.range(1, 9), jstr(&by2), rng.range(1, 9)
+    );
+    Some(Cmd::new(text).param("gs", json!(subject)).param("go1", json!(o1)).param("go2", json!(o2)))
+}
 
 // ---------------------------------------------------------------------------------------------
 // the battery
@@ -111,6 +171,8 @@ fn for_pin() -> String {
     format!("FOR TIME \"{PIN_TIME}\"")
 }
 
+const READS_BELIEF: &str = "FIND(?p.id, ?o.id, ?b.status, ?b.support.score, ?b.opposition.score) WHERE { ?p PROPOSITION (?s, \"reads\", ?o) ?b BELIEF (?p) }";
+
 /// The battery at one coordinate: fixed query shapes, the id-bearing ones instantiated with
 /// elements that exist now (seeded choice).
 fn battery(w: &World, all: &World, sc: &Scan, rng: &mut Rng) -> Vec<Q> {
@@ -185,6 +247,9 @@ fn battery(w: &World, all: &World, sc: &Scan, rng: &mut Rng) -> Vec<Q> {
             .tail("FOR TIME \"2027-01-01T00:00:00Z\""),
         q("belief", "FIND(?p.id, ?b.status) WHERE { ?p PROPOSITION (?s, ?pr, ?o) ?b BELIEF (?p) }")
             .tail(format!("{} WITH EPISTEMIC {{purpose: \"answer_user\", risk: \"low\", include_hypothetical: true, explanation: \"ledger\"}}", for_pin())),
+        // a predicate whose definition differs between the schema versions of the history
+        q("belief", READS_BELIEF).tail(for_pin()),
+        q("tuple", "FIND(?s.id, ?o.id) WHERE { (?s, \"reads\", ?o) }"),
         // META commands that take a coordinate
         q("meta_as_of", "DESCRIBE SCHEMA ENVIRONMENT").drop(&["snapshot_seq"]),
         q("meta_as_of", "SNAPSHOT"),
@@ -215,6 +280,10 @@ fn battery(w: &World, all: &World, sc: &Scan, rng: &mut Rng) -> Vec<Q> {
         b.push(q("path", "FIND(?b.id) WHERE { (:a, \"same_as\"{1,3}, ?b) }").p("a", &c.id));
         b.push(q("belief_slot", "FIND(?slot) WHERE { ?slot BELIEF SLOT (:c, \"prefers\") }").p("c", &c.id).tail(for_pin()));
         b.push(q("belief_slot", "FIND(?slot) WHERE { ?slot BELIEF SLOT (:c, \"same_as\") }").p("c", &c.id).tail(for_pin()));
+    }
+    if let Some(c) = all.concepts.iter().find(|c| c.typ == "Person") {
+        // the subject `reads_statement` uses while it is active
+        b.push(q("belief_slot", "FIND(?slot) WHERE { ?slot BELIEF SLOT (:c, \"reads\") }").p("c", &c.id).tail(for_pin()));
     }
     if let Some(c) = all.concepts.iter().find(|c| !c.key.is_empty()) {
         b.push(q("element", format!("FIND(?c.id, ?c.name) WHERE {{ ?c CONCEPT {{type: {}, key: {}}} }}", jstr(&c.typ), jstr(&c.key))));
@@ -267,8 +336,44 @@ fn world_active(w: &World) -> World {
 // ---------------------------------------------------------------------------------------------
 // answers and their comparison
 
+/// marks the fourth way of naming a coordinate: the request envelope's `read.snapshot_token`
+const TOKEN_FORM: &str = "\u{1}snapshot_token:";
+
+fn shown(qu: &Q, as_of: &str) -> String {
+    match as_of.strip_prefix(TOKEN_FORM) {
+        Some(token) => format!("{}   [request envelope: read.snapshot_token = {token}]", qu.text("")),
+        None => qu.text(as_of),
+    }
+}
+
+/// The query as written (no AS OF) in a request bound to a snapshot token.
+async fn ask_bound(nexus: &CognitiveNexus, qu: &Q, token: &str) -> Result<Result<Value, String>, String> {
+    let request: Request = serde_json::from_value(json!({
+        "kip": "2.0",
+        "read": {"snapshot_token": token},
+        "operations": [{"command": qu.text(""), "parameters": Value::Object(qu.params.clone())}],
+    }))
+    .map_err(|e| format!("request envelope: {e}"))?;
+    let parsed = request.operations[0].parse().map_err(|e| format!("battery query does not parse: {}: {}", e.name(), e.message))?;
+    let response = nexus.execute(parsed, &request, &request.operations[0]).await;
+    let raw = serde_json::to_value(&response).map_err(|e| format!("response encode: {e}"))?;
+    Ok(if raw["status"] == "succeeded" {
+        let mut r = raw["results"][0]["result"].clone();
+        if qu.tail.contains("LIMIT") {
+            r = json!({"rows": r, "next_cursor": raw["results"][0]["next_cursor"]});
+        }
+        Ok(r)
+    } else {
+        let err = if raw["error"].is_object() { &raw["error"] } else { &raw["results"][0]["error"] };
+        Err(err["code"].as_str().unwrap_or("").to_string())
+    })
+}
+
 /// `Ok(payload)` or `Err(error code)`; only the operation result payload is an answer.
 async fn ask(nexus: &CognitiveNexus, qu: &Q, as_of: &str) -> Result<Result<Value, String>, String> {
+    if let Some(token) = as_of.strip_prefix(TOKEN_FORM) {
+        return ask_bound(nexus, qu, token).await;
+    }
     let mut cmd = Cmd::new(qu.text(as_of));
     cmd.params = qu.params.clone();
     let o = exec(&Via::System(nexus), &cmd).await?;
@@ -281,6 +386,10 @@ async fn ask(nexus: &CognitiveNexus, qu: &Q, as_of: &str) -> Result<Result<Value
             for k in qu.drop_keys {
                 m.remove(*k);
             }
+        }
+        if qu.tail.contains("LIMIT") {
+            // a paged answer is its window and the cursor that continues it
+            r = json!({"rows": r, "next_cursor": o.raw["results"][0]["next_cursor"]});
         }
         Ok(r)
     } else {
@@ -398,6 +507,24 @@ fn reordered_lists(a: &Value, b: &Value, path: &str, out: &mut BTreeSet<String>)
     }
 }
 
+/// The first place (path, recorded, replayed) where two normalized answers differ.
+fn first_difference(a: &Value, b: &Value, path: &str) -> Option<Value> {
+    match (a, b) {
+        (Value::Array(x), Value::Array(y)) if x.len() == y.len() => x.iter().zip(y).enumerate().find_map(|(i, (p, q))| first_difference(p, q, &format!("{path}[{i}]"))),
+        (Value::Object(x), Value::Object(y)) if x.keys().eq(y.keys()) => x.iter().find_map(|(k, p)| first_difference(p, &y[k], &format!("{path}.{k}"))),
+        _ if canon(a) == canon(b) => None,
+        _ => Some(json!({"at": path, "recorded": clip(&canon(a)), "replayed": clip(&canon(b))})),
+    }
+}
+
+fn explain_difference(live: &Result<Value, String>, replay: &Result<Value, String>, qu: &Q) -> Value {
+    let (Ok(a), Ok(b)) = (live, replay) else {
+        return Value::Null;
+    };
+    let loose_inside = matches!(qu.family, "belief" | "belief_slot");
+    first_difference(&normalize(a, qu.ordered, loose_inside), &normalize(b, qu.ordered, loose_inside), "").unwrap_or(Value::Null)
+}
+
 fn compare(live: &Result<Value, String>, replay: &Result<Value, String>, qu: &Q) -> Cmp {
     // float aggregates (SUM / AVG) and projection scores depend on the order the rows were
     // folded in, which no query fixes
@@ -507,9 +634,7 @@ async fn replay_one(
         if only.map(|o| !o.contains(&i)).unwrap_or(false) {
             continue;
         }
-        let t0 = std::time::Instant::now();
         let got = ask(nexus, qu, as_of).await?;
-        st.add(&format!("TMP_us:{}", qu.family), t0.elapsed().as_micros() as u64);
         st.eval();
         st.count(&format!("replayed:{form}"));
         st.count(&format!("replayed_family:{}", qu.family));
@@ -530,7 +655,7 @@ async fn replay_one(
                 let (qu, got) = (qu.clone(), got.clone());
                 report_once(st, &format!("C18/live_engine_internal_error_where_historical_engine_answers/{}", shape_name(&qu)), || {
                     json!({"what": "the query failed with InternalError when its coordinate was the present; the same query AS OF that coordinate answers",
-                           "query_live": qu.text(""), "query_replayed": qu.text(as_of), "parameters": qu.params,
+                           "query_live": qu.text(""), "query_replayed": shown(&qu, as_of), "parameters": qu.params,
                            "replayed": got.as_ref().map(|v| clip(&canon(v))).map_err(|e| e.clone()), "context": ctx()})
                 });
                 continue;
@@ -558,10 +683,11 @@ async fn replay_one(
                 let since: Vec<&str> = since.iter().copied().collect();
                 report_once(st, &format!("C18/replay/{}/{}/{form}", qu.family, shape_name(&qu)), || {
                     json!({"what": "the answer AS OF a past coordinate differs from the answer recorded when that coordinate was current",
-                           "query": qu.text(as_of), "parameters": qu.params, "recorded_at_seq": rec.seq,
+                           "query": shown(&qu, as_of), "parameters": qu.params, "recorded_at_seq": rec.seq,
                            "recorded": live.as_ref().map(|v| clip(&canon(v))).map_err(|e| e.clone()),
                            "replayed": got.as_ref().map(|v| clip(&canon(v))).map_err(|e| e.clone()),
                            "row_difference": row_diff(&live, &got),
+                           "first_difference_after_normalization": explain_difference(&live, &got, &qu),
                            "mutation_kinds_since": since, "context": ctx()})
                 });
             }
@@ -575,7 +701,13 @@ async fn hist_case_async(case: u64, rng: &mut Rng, st: &mut Stats, n_commits: us
     activate_profile(&nexus).await?;
     let mut g = Gen { uid: 0, tag: format!("h{case}") };
     let spaced = rng.chance(2, 3); // keep commit timestamps apart (workload shaping only)
-    let with_schema_events = rng.chance(1, 3);
+    for (v, f) in [("1.0.0", false), ("2.0.0", true)] {
+        let pkg = SchemaPackage::parse(&reads_package(v, f)).map_err(|e| format!("reads package: {e:?}"))?;
+        nexus.install_package(&pkg, "verif").await.map_err(|e| format!("install reads package: {e:?}"))?;
+    }
+    let mut env = if rng.bool() { Env::Plain } else { Env::Functional };
+    nexus.activate_schema(DEFAULT_SPACE, lock_of(env)).await.map_err(|e| format!("activate_schema: {e:?}"))?;
+    let with_schema_events = rng.chance(1, 2);
     let mut core_only_left = 0usize;
     let mut recorded: Vec<Recorded> = vec![];
     let mut history: Vec<Value> = vec![];
@@ -587,11 +719,16 @@ async fn hist_case_async(case: u64, rng: &mut Rng, st: &mut Stats, n_commits: us
         let w = world_of(&sc);
         // --- one history step: a KML statement or a schema activation
         let (seq, tx_id, committed_at, kinds): (u64, String, String, Vec<&'static str>);
-        let schema_step = with_schema_events && recorded.len() >= 3 && (core_only_left == 1 || (core_only_left == 0 && rng.chance(1, 9)));
+        let schema_step = with_schema_events && recorded.len() >= 2 && (core_only_left == 1 || (core_only_left == 0 && rng.chance(1, 6)));
         if schema_step {
-            let to_core = core_only_left == 0;
-            let lock = if to_core { SchemaLock::default() } else { profile_lock() };
-            nexus.activate_schema(DEFAULT_SPACE, lock).await.map_err(|e| format!("activate_schema: {e:?}"))?;
+            let to = match env {
+                Env::Core => if rng.bool() { Env::Plain } else { Env::Functional },
+                Env::Plain => if rng.chance(2, 3) { Env::Functional } else { Env::Core },
+                Env::Functional => if rng.chance(1, 2) { Env::Plain } else { Env::Core },
+            };
+            let to_core = to == Env::Core;
+            nexus.activate_schema(DEFAULT_SPACE, lock_of(to)).await.map_err(|e| format!("activate_schema: {e:?}"))?;
+            env = to;
             core_only_left = if to_core { 1 + rng.usize(2) + 1 } else { 0 };
             let sc2 = scan(&nexus).await?;
             let s = space_seq(&sc2);
@@ -600,13 +737,23 @@ async fn hist_case_async(case: u64, rng: &mut Rng, st: &mut Stats, n_commits: us
             seq = s;
             tx_id = row["tx_id"].as_str().unwrap_or("").to_string();
             committed_at = row["committed_at"].as_str().unwrap_or("").to_string();
-            kinds = vec![if to_core { "schema_activation_core_only" } else { "schema_activation_profile" }];
-            history.push(json!({"host": "activate_schema", "lock": if to_core { "empty (core only)" } else { "profile 2.0.0" }, "seq": s}));
+            kinds = match to {
+                Env::Core => vec!["schema_activation_core_only"],
+                Env::Plain => vec!["schema_activation_profile", "schema_activation_reads_plain"],
+                Env::Functional => vec!["schema_activation_profile", "schema_activation_reads_functional"],
+            };
+            history.push(json!({"host": "activate_schema", "lock": format!("{to:?}"), "seq": s}));
         } else {
             if core_only_left > 1 {
                 core_only_left -= 1;
             }
-            let stmt = gen_stmt(rng, &mut g, &w, None, &CFG_C18);
+            let mut stmt = gen_stmt(rng, &mut g, &w, None, &CFG_C18);
+            if env != Env::Core && rng.chance(1, 5) {
+                if let Some(cmd) = reads_statement(rng, &w) {
+                    stmt.cmd = cmd;
+                    stmt.kinds = vec![if env == Env::Functional { "reads_claims_functional" } else { "reads_claims_plain" }];
+                }
+            }
             let out = exec(&Via::System(&nexus), &stmt.cmd).await?;
             history.push(json!({"cmd": stmt.cmd.describe(),
                 "outcome": if out.committed() { format!("{}@{}", out.receipt_status, out.space_seq.unwrap_or(0)) } else { format!("refused:{}", out.error_code) }}));
@@ -650,7 +797,7 @@ async fn hist_case_async(case: u64, rng: &mut Rng, st: &mut Stats, n_commits: us
                 ks.push(kind);
             }
             for k in &stmt.kinds {
-                if matches!(*k, "update_again" | "update_sweep" | "upsert_hit" | "assert_sugar") {
+                if matches!(*k, "update_again" | "update_sweep" | "upsert_hit" | "assert_sugar" | "reads_claims_functional" | "reads_claims_plain") {
                     ks.push(k);
                 }
             }
@@ -676,6 +823,13 @@ async fn hist_case_async(case: u64, rng: &mut Rng, st: &mut Stats, n_commits: us
             if let Err(code) = &a {
                 st.count(&format!("battery_recorded_error_answers:{code}"));
             }
+            if qu.head == READS_BELIEF {
+                if let Ok(Value::Array(rows)) = &a {
+                    let rivals = rows.iter().filter(|r| r[4].as_f64().unwrap_or(0.0) > 0.0).count() as u64;
+                    st.add(&format!("recorded_reads_beliefs_opposed_by_a_rival_value:{env:?}"), rivals);
+                    st.add(&format!("recorded_reads_beliefs:{env:?}"), rows.len() as u64);
+                }
+            }
             qs.push((qu, a));
         }
         recorded.push(Recorded { seq, tx_id, committed_at, kinds, qs });
@@ -697,7 +851,9 @@ async fn hist_case_async(case: u64, rng: &mut Rng, st: &mut Stats, n_commits: us
                 let since: BTreeSet<&'static str> = recorded[i + 1..].iter().flat_map(|r| r.kinds.iter().copied()).collect();
                 let rec = &recorded[i];
                 st.count("coordinates_replayed_after_a_later_commit");
-                replay_one(&nexus, rec, "SEQ", &format!("AS OF SEQ {}", rec.seq), &since, None, None, st, &cx).await?;
+                // quick tier: a seeded half of the battery here (all of it at the end)
+                let sub: Option<BTreeSet<usize>> = if mid_replays == 0 { Some((0..rec.qs.len()).filter(|_| rng.bool()).collect()) } else { None };
+                replay_one(&nexus, rec, "SEQ", &format!("AS OF SEQ {}", rec.seq), &since, sub.as_ref(), None, st, &cx).await?;
             }
         }
     }
@@ -724,6 +880,15 @@ async fn hist_case_async(case: u64, rng: &mut Rng, st: &mut Stats, n_commits: us
             replay_one(&nexus, rec, "TIME", &format!("AS OF TIME {}", jstr(&rec.committed_at)), &since, Some(&sub), Some(&diff), st, &cx).await?;
         } else {
             st.count("as_of_time_skipped_equal_commit_timestamps");
+        }
+        // the token SNAPSHOT AS OF SEQ s hands out binds a whole request to s (KQL only)
+        match read(&nexus, &format!("SNAPSHOT AS OF SEQ {}", rec.seq)).await {
+            Ok(snap) if snap["snapshot_token"].is_string() => {
+                let sub: BTreeSet<usize> = (0..rec.qs.len()).filter(|i| rec.qs[*i].0.family != "meta_as_of" && rng.chance(1, 5)).collect();
+                let form = format!("{TOKEN_FORM}{}", snap["snapshot_token"].as_str().unwrap_or(""));
+                replay_one(&nexus, rec, "TOKEN", &form, &since, Some(&sub), Some(&diff), st, &cx).await?;
+            }
+            other => report_once(st, "C18/snapshot_as_of_issues_no_token", || json!({"seq": rec.seq, "answer": format!("{other:?}"), "context": cx()})),
         }
     }
     // coordinate 0 is the empty Space, whatever happened later
@@ -753,25 +918,27 @@ fn main() {
         "C18",
         "exploration",
         "seeded histories of committed KML statements (create / update / archive / tombstone / \
-         retract / supersede / merge / retention / transition / correction, schema activations to \
-         a core-only environment and back) over the bundled profile; a history is non-trivial \
-         when at least half of the planned commits landed and >= 6 mutation kinds occurred \
-         (distinct by statement texts)",
+         retract / supersede / merge / retention / transition / correction, rival claims on a \
+         `reads` slot) with schema activations between three environments: core only, bundled \
+         profile + test package 1.0.0 (`reads` an ordinary predicate), bundled profile + test \
+         package 2.0.0 (`reads` functional); a history is non-trivial when at least half of the \
+         planned commits landed and >= 6 mutation kinds occurred (distinct by statement texts)",
     );
     run.assume("DESCRIBE SCHEMA ENVIRONMENT AS OF adds the member snapshot_seq (the coordinate it was asked for); it is dropped before comparing. SNAPSHOT / DESCRIBE SNAPSHOT are compared whole (the live answer at s names s itself)");
-    run.assume("an answer is the operation's result payload; the response envelope (context.schema_environment_version, space_id, receipt, next_cursor) names the read coordinate/environment and is excluded; nothing inside a payload is excluded");
-    run.assume("row order is compared only for queries with ORDER BY (their sort keys are unique per row); otherwise, and for id lists inside a BELIEF ledger, order-only differences are counted, not asserted");
+    run.assume("an answer is the operation's result payload (plus next_cursor for the paged ORDER BY queries); the rest of the response envelope (context.schema_environment_version, space_id, receipt) names the read coordinate/environment and is excluded; nothing inside a payload is excluded");
+    run.assume("the row sequence is compared only for queries with ORDER BY (their sort keys are unique per row); the column order inside a row and every list inside an element view are always compared as they are. For the BELIEF families only, the order of the lists inside a projection object (ledger id lists, slot candidates) and - with the aggregates - the last digits of float sums follow the engine's candidate enumeration order; such differences are counted (replay_differs_in_*, reordered_list_tolerated:*), not asserted. Scalar members of a projection (status, scores to 12 digits, `leading`) are asserted");
     run.assume("BELIEF / BELIEF SLOT / FOR TIME queries pin world time with FOR TIME so that `now` never enters an answer");
     run.assume("AS OF TIME is replayed only for commits whose timestamp differs from every other journal row of the Space (equal timestamps are counted and skipped); SEARCH ... AS OF is documented as unsupported and is not in the battery; PURGE is not generated (the only statement allowed to change the past)");
     run.assume("all reads run as the system Principal (current authorization applies to historical reads by specification)");
     let t = run.tier;
-    run.parallel("hist", t.pick(32, 1200), 0.9, |c, rng, st| hist_case(c, rng, st, t.pick(18, 28), t.pick(1, 3)));
+    run.parallel("hist", t.pick(24, 1200), t.pick(0.9, 0.8), |c, rng, st| hist_case(c, rng, st, t.pick(16, 24), t.pick(0, 3)));
     drain_reports(&mut run);
     run.floor("history_commits", 120);
     run.floor("battery_recorded", 6000);
     run.floor("replayed:SEQ", 10000);
     run.floor("replayed:TX", 1000);
     run.floor("replayed:TIME", 300);
+    run.floor("replayed:TOKEN", 300);
     run.floor("coordinates_replayed_after_a_later_commit", 120);
     run.floor("coordinates_replayed_at_the_end", 120);
     run.floor("oracle_payload_immutable", 500);
@@ -780,9 +947,12 @@ fn main() {
         run.floor(&format!("replayed_family:{f}"), 200);
     }
     for k in ["create_concept", "create_proposition", "create_assertion", "update_concept", "update_proposition", "archive", "tombstone", "retract", "supersede", "merge",
-              "set_retention", "transition", "correct_evidence", "schema_activation_core_only", "schema_activation_profile"] {
+              "set_retention", "transition", "correct_evidence", "schema_activation_core_only", "schema_activation_profile",
+              "schema_activation_reads_plain", "schema_activation_reads_functional", "reads_claims_functional", "reads_claims_plain"] {
         run.floor(&format!("replayed_after:{k}"), 150);
     }
+    run.floor("recorded_reads_beliefs_opposed_by_a_rival_value:Functional", 20);
+    run.floor("recorded_reads_beliefs:Plain", 20);
     run.floor_set("replayed_query_x_form", 100);
     run.finish();
 }
